@@ -147,6 +147,15 @@ CHECKS = {
         'note': _NOTE,
         'technique': 'property-based testing: expected document rebuilt from the computed objects (consistency oracle) over generated outcome mixes',
     },
+    'C18': {
+        'text': 'Grammar-based legacy documents of all kinds (equipment, topology, services, spectrum, sim-params, amplifier '
+                'config; values within and beyond the declared fraction digits; shipped files as seeds): validity of the YANG '
+                'form, idempotence of both conversions, round trip to the declared precision (digits read from the .yang files '
+                'by an own parser), equality of the objects built by the public loaders from either form, equal design + '
+                'propagation results, alias semantics, and member-order robustness (risky conversions run in a subprocess).',
+        'note': _NOTE + ' libyang is trusted as the judge of YANG validity.',
+        'technique': 'property-based testing: round trip + idempotence + differential loading of two document forms',
+    },
 }
 
 _PENDING = 'check not built yet in this session (work in progress, see DESIGN.md §3)'
